@@ -103,7 +103,8 @@ class NodeSpec(statex.Spec):
         menu = w.enabled()
         hist = tuple(world._hist)
         if self.checkpoints and (self._ck is None or self._ck[0] != hist):
-            self._ck = (hist, w.checkpoint())
+            ck = w.checkpoint()
+            self._ck = (hist, ck) if ck is not None else None
         return menu
 
     def canon(self, world):
@@ -125,7 +126,8 @@ class NodeSpec(statex.Spec):
         if w.fifo:
             st['states_with_pending_notifications'] = 1
         if self.checkpoints:
-            self._ck = (hist, w.checkpoint())
+            ck = w.checkpoint()
+            self._ck = (hist, ck) if ck is not None else None
         return [], st
 
 
@@ -337,7 +339,9 @@ def _run(ctx):
               'cleanups_completed', 'finishes', 'boots',
               'manager_killed_mid_handler', 'checkpoint_crosschecks',
               'quiescent_states_checked'):
-        if nt.get(k, 0) == 0:
+        # (only a silent run can be vacuous: a changed tree that is reported
+        # may legitimately starve a counter)
+        if nt.get(k, 0) == 0 and not violations:
             raise statex.HarnessError('vacuous run: counter %s is 0' % k)
     return {'coverage': cov, 'violations': violations,
             'assumptions': ASSUMPTIONS}
